@@ -228,14 +228,16 @@ def c13_alphabet(alpha):
     return [t for t in alpha if t[0] in C13_CODES]
 
 
-ALPHABETS = {"full": lambda: c13_alphabet(ic.full_alphabet()), "core": ic.core_alphabet, "micro": ic.micro_alphabet}
+ALPHABETS = {"full": lambda: c13_alphabet(ic.full_alphabet()), "core": ic.core_alphabet, "micro": ic.micro_alphabet,
+             "intlike": ic.intlike_alphabet}
 
 
 def families(ctx):
     """(family name, alphabet, length, tr, curve): ALL sequences of that length"""
     fams = []
     for tr in (False, True):
-        fams += [("full=2", "full", 2, tr, False), ("core=4", "core", 4, tr, False), ("core=2(curves)", "core", 2, tr, True)]
+        fams += [("full=2", "full", 2, tr, False), ("core=4", "core", 4, tr, False), ("core=2(curves)", "core", 2, tr, True),
+                 ("intlike=3", "intlike", 3, tr, False)]
     if ctx.thorough:
         fams += [("core=5", "core", 5, None, False), ("micro=6", "micro", 6, None, False)]   # tr alternates
     return fams
